@@ -49,6 +49,7 @@ CONSTANTS Configs, OptNames, SecNames, Values, Decos, MaxNodes, MaxDepth,   \* d
           Routes,       \* arrival routes explored: subset of RouteNames
           Cfgs,         \* configuration arguments offered: "top" (process-wide, explicit), "null", "view"
           PrePaths,     \* paths offered to single assign / remove calls
+          SingleKinds,  \* subset of {"assign", "remove"}
           LoadKinds,    \* [how |-> "root" | "prefix", where |-> "file" | "dir" | "both"]
           TwoFiles,     \* TRUE: a second document may be put aside (folder and file in one load)
           EnvCalls,     \* [how |-> "array" | "environ", pat |-> pattern (Null0 = library default "mpt_*"),
@@ -219,8 +220,8 @@ Single ==
   /\ "single" \in Routes /\ nops < MaxOps /\ (SinglesFirst => narr = 0)
   /\ \E via \in Vias : \E p \in PrePaths :
         /\ via = "view" => p \in RelSet
-        /\ \/ \E v \in Vals : Assign(via, p, v, Sep, 0)
-           \/ Remove(via, p, Sep)
+        /\ \/ "assign" \in SingleKinds /\ \E v \in Vals : Assign(via, p, v, Sep, 0)
+           \/ "remove" \in SingleKinds /\ Remove(via, p, Sep)
   /\ KeepDraft /\ pst' = pst /\ nops' = nops + 1 /\ narr' = narr
 
 (* mpt_config_load *)
@@ -393,6 +394,8 @@ ArrivalStep ==
     /\ e.k = "get" => tree' = tree
     /\ obs'.exp.all = obs'.exp.all2          \* both tiers answer every query of the universe alike
 ArrivalProp == [][ArrivalStep]_xvars
+\* single assignments / removals within the frame: the action property of the base specification
+SingleProp == [][obs'.a \in {"assign", "remove"} => MapStep]_xvars
 PrintStep == obs'.a = "pfputs" => obs'.exp.ret = Len(Walk(po))
 PrintProp == [][PrintStep]_xvars
 =============================================================================
